@@ -21,3 +21,23 @@ package rule
 // Decoding: the running string offset never passes the declared buffer length.
 //@ func (*rule.ruleData).fromAuditRuleData
 //@ loop 3 invariant offset <= in.BufLen
+
+// ---------------------------------------------------------------------------
+// C06 / C20: tables, constants and layouts against the UAPI oracle
+// (/verif/oracles/uapi_audit.spec). Facts are extracted from the typed AST of
+// the real declarations on every run.
+//
+//@ layout[C06] rule auditRuleHeader audit_rule_data
+//@ table[C06] oracle rule.fieldsTable field
+//@ table[C06] oracle rule.operatorsTable operator
+//@ consts[C06] rule userFilter=filter.AUDIT_FILTER_USER taskFilter=filter.AUDIT_FILTER_TASK entryFilter=filter.AUDIT_FILTER_ENTRY watchFilter=filter.AUDIT_FILTER_WATCH exitFilter=filter.AUDIT_FILTER_EXIT excludeFilter=filter.AUDIT_FILTER_EXCLUDE prependFilter=filter.AUDIT_FILTER_PREPEND
+//@ consts[C06] rule neverAction=action.AUDIT_NEVER possibleAction=action.AUDIT_POSSIBLE alwaysAction=action.AUDIT_ALWAYS
+//@ consts[C06] rule execPerm=perm.AUDIT_PERM_EXEC writePerm=perm.AUDIT_PERM_WRITE readPerm=perm.AUDIT_PERM_READ attrPerm=perm.AUDIT_PERM_ATTR
+//@ consts[C06] rule fileFiletype=filetype.S_IFREG socketFiletype=filetype.S_IFSOCK linkFiletype=filetype.S_IFLNK blockFiletype=filetype.S_IFBLK dirFiletype=filetype.S_IFDIR characterFiletype=filetype.S_IFCHR fifoFiletype=filetype.S_IFIFO
+//@ consts[C06] rule fieldCompare=field.field_compare maxKeyLength=limits.AUDIT_MAX_KEY_LEN pathMax=limits.PATH_MAX keySeparator=limits.AUDIT_KEY_SEPARATOR syscallBitmaskSize=limits.AUDIT_BITMASK_SIZE maxFields=limits.AUDIT_MAX_FIELDS
+//@ consts[C06] rule _AUDIT_COMPARE_UID_TO_OBJ_UID=compare.AUDIT_COMPARE_UID_TO_OBJ_UID _AUDIT_COMPARE_GID_TO_OBJ_GID=compare.AUDIT_COMPARE_GID_TO_OBJ_GID _AUDIT_COMPARE_EUID_TO_OBJ_UID=compare.AUDIT_COMPARE_EUID_TO_OBJ_UID _AUDIT_COMPARE_EGID_TO_OBJ_GID=compare.AUDIT_COMPARE_EGID_TO_OBJ_GID _AUDIT_COMPARE_AUID_TO_OBJ_UID=compare.AUDIT_COMPARE_AUID_TO_OBJ_UID _AUDIT_COMPARE_SUID_TO_OBJ_UID=compare.AUDIT_COMPARE_SUID_TO_OBJ_UID _AUDIT_COMPARE_SGID_TO_OBJ_GID=compare.AUDIT_COMPARE_SGID_TO_OBJ_GID _AUDIT_COMPARE_FSUID_TO_OBJ_UID=compare.AUDIT_COMPARE_FSUID_TO_OBJ_UID _AUDIT_COMPARE_FSGID_TO_OBJ_GID=compare.AUDIT_COMPARE_FSGID_TO_OBJ_GID
+//@ consts[C06] rule _AUDIT_COMPARE_UID_TO_AUID=compare.AUDIT_COMPARE_UID_TO_AUID _AUDIT_COMPARE_UID_TO_EUID=compare.AUDIT_COMPARE_UID_TO_EUID _AUDIT_COMPARE_UID_TO_FSUID=compare.AUDIT_COMPARE_UID_TO_FSUID _AUDIT_COMPARE_UID_TO_SUID=compare.AUDIT_COMPARE_UID_TO_SUID _AUDIT_COMPARE_AUID_TO_FSUID=compare.AUDIT_COMPARE_AUID_TO_FSUID _AUDIT_COMPARE_AUID_TO_SUID=compare.AUDIT_COMPARE_AUID_TO_SUID _AUDIT_COMPARE_AUID_TO_EUID=compare.AUDIT_COMPARE_AUID_TO_EUID _AUDIT_COMPARE_EUID_TO_SUID=compare.AUDIT_COMPARE_EUID_TO_SUID _AUDIT_COMPARE_EUID_TO_FSUID=compare.AUDIT_COMPARE_EUID_TO_FSUID _AUDIT_COMPARE_SUID_TO_FSUID=compare.AUDIT_COMPARE_SUID_TO_FSUID
+//@ consts[C06] rule _AUDIT_COMPARE_GID_TO_EGID=compare.AUDIT_COMPARE_GID_TO_EGID _AUDIT_COMPARE_GID_TO_FSGID=compare.AUDIT_COMPARE_GID_TO_FSGID _AUDIT_COMPARE_GID_TO_SGID=compare.AUDIT_COMPARE_GID_TO_SGID _AUDIT_COMPARE_EGID_TO_FSGID=compare.AUDIT_COMPARE_EGID_TO_FSGID _AUDIT_COMPARE_EGID_TO_SGID=compare.AUDIT_COMPARE_EGID_TO_SGID _AUDIT_COMPARE_SGID_TO_FSGID=compare.AUDIT_COMPARE_SGID_TO_FSGID
+//@ table[C06,C07,C20] symmetric rule.comparisonsTable
+//@ table[C07,C20] injective rule.fieldsTable
+//@ table[C07,C20] injective rule.operatorsTable
